@@ -5,7 +5,7 @@ func init() {
 		ID: "C08", Level: "exploration", Scenarios: []string{"lend"},
 		Oracles:   func(w *World) []Oracle { return []Oracle{&c08BooksOracle{}, &c08LtvOracle{}, &lendTrackerPump{}} },
 		Quick:     Budget{Runs: 160, MaxEvents: 150},
-		Thorough:  Budget{Runs: 3200, MaxEvents: 300},
+		Thorough:  Budget{Runs: 2000, MaxEvents: 300},
 		Essential: []string{"c08.books_checked_with_borrows", "c08.ltv_checked"},
 		BatchProbe: []string{"c08.books_checked_with_borrows", "c08.books_checked_with_liquidated", "c08.ltv_checked", "c08.ltv_crosspool_checked",
 			"c08.boundary.ltv_near", "c08.withdraw_checked", "c08.withdraw_with_pledged_collateral", "c08.deposit_borrow_checked", "lend.borrow_seized", "lend.auction_settled"},
@@ -23,7 +23,7 @@ func init() {
 		ID: "C09L", Level: "exploration", Scenarios: []string{"lend"},
 		Oracles:   func(w *World) []Oracle { return []Oracle{&c09LendOracle{}} },
 		Quick:     Budget{Runs: 160, MaxEvents: 160},
-		Thorough:  Budget{Runs: 3200, MaxEvents: 320},
+		Thorough:  Budget{Runs: 2000, MaxEvents: 300},
 		Essential: []string{"c09l.seizure_checked"},
 		BatchProbe: []string{"c09l.seizure_checked", "c09l.seizure_clearly_unsafe", "lend.borrow_seized_by_keeper_msg", "c09l.liveness_clock_running", "lend.auction_settled"},
 		TweakCfg: func(r *Rng, cfg *Config) {
@@ -47,7 +47,7 @@ func init() {
 		ID: "C18L", Level: "exploration", Scenarios: []string{"lend"},
 		Oracles:   func(w *World) []Oracle { return []Oracle{&c18LendAccrual{}, &c18LendRates{}, &lendTrackerPump{}} },
 		Quick:     Budget{Runs: 160, MaxEvents: 150},
-		Thorough:  Budget{Runs: 3200, MaxEvents: 300},
+		Thorough:  Budget{Runs: 2000, MaxEvents: 300},
 		Essential: []string{"c18l.calc_checked", "c18l.rate_pairs_compared"},
 		BatchProbe: []string{"c18l.calc_checked", "c18l.zero_time_checked", "c18l.interest_accrued", "c18l.reward_paid", "c18l.rate_pairs_compared",
 			"c18l.rate_zero_util_checked", "c18l.rate_at_or_above_kink_observed", "c18l.rate_near_kink_observed", "c18l.rate_three_or_more_utilisations"},
